@@ -360,4 +360,53 @@ example : withinLimit (Generated.strokeLimit : Rat) ⟨-5 * 10 ^ 17, 10 ^ 18⟩ 
   unfold withinLimit Generated.strokeLimit; norm_num
 end StrokeGuard
 
+/-! ### the recorded finding `slow:definition-dag`, as a theorem about the converter's recursion
+
+The cycle guard bounds the *depth* of the conversion, not the number of conversions: a definition
+that is not shared (bounding-box units) is converted once per user.  In the reference graph where each
+of `n` definitions is used twice by the next one — a document of `n + 1` elements and `2 n`
+references — converting the last definition visits `2^(n+1) − 1` elements.  The property's time budget
+"proportional to the input size" is therefore false of the model (and of the code: known finding). -/
+
+open Resvg.Convert in
+/-- definitions `0 … n`: definition `e + 1` uses definition `e` twice; all are guarded definitions -/
+def dagGraph : RefGraph :=
+  { succ := fun e => if e = 0 then [] else [e - 1, e - 1], marked := fun _ => true }
+
+open Resvg.Convert in
+theorem C01_definition_dag_visits_exponential (e : Nat) :
+    ∀ (fuel : Nat) (st : List Nat), (∀ x ∈ st, e < x) → e + 1 ≤ fuel →
+      visit dagGraph fuel st e = some (2 ^ (e + 1) - 1) := by
+  induction e with
+  | zero =>
+    intro fuel st hst hf
+    obtain ⟨f, rfl⟩ : ∃ f, fuel = f + 1 := ⟨fuel - 1, by omega⟩
+    have hn : (0 : Nat) ∉ st := fun h => by have := hst 0 h; omega
+    simp [visit, dagGraph, enterDef, hn, sumOpt]
+  | succ k ih =>
+    intro fuel st hst hf
+    obtain ⟨f, rfl⟩ : ∃ f, fuel = f + 1 := ⟨fuel - 1, by omega⟩
+    have hn : (k + 1) ∉ st := fun h => by have := hst (k + 1) h; omega
+    have hst' : ∀ x ∈ (k + 1) :: st, k < x := by
+      intro x hx
+      rcases List.mem_cons.mp hx with h | h
+      · omega
+      · have := hst x h; omega
+    have hv := ih f ((k + 1) :: st) hst' (by omega)
+    have hp : 1 ≤ 2 ^ (k + 1) := Nat.one_le_two_pow
+    have h1 : visit dagGraph (f + 1) st (k + 1) =
+        (sumOpt ([k, k].map (fun c => visit dagGraph f ((k + 1) :: st) c))).map (· + 1) := by
+      simp [visit, dagGraph, enterDef, hn]
+    rw [h1]
+    simp only [List.map_cons, List.map_nil, hv, sumOpt, List.foldl_cons, List.foldl_nil, Option.map_some]
+    congr 1
+    rw [pow_succ 2 (k + 1)]
+    omega
+
+open Resvg.Convert in
+/-- 26 definitions (the recorded witness, about 5 KB): 134 217 727 visits; the depth guard is no help -/
+theorem C01_definition_dag_26 : visit dagGraph 27 [] 26 = some 134217727 := by
+  rw [C01_definition_dag_visits_exponential 26 27 [] (by simp) (by omega)]
+  norm_num
+
 end Resvg.Props.C01
